@@ -541,3 +541,44 @@ def propagate_pure_flags(fn: ast.AST) -> ast.AST:
     out = R().visit(root)
     ast.fix_missing_locations(out)
     return out
+
+
+def propagate_method_aliases(fn: ast.AST) -> ast.AST:
+    """a copy of fn in which a local that is bound exactly once to an attribute of a stable receiver
+    (`raw_get = super().__getattribute__`, `put = self._queue.put`) is replaced by that attribute wherever it is read
+    afterwards (looking the attribute up once or at each use is the same)"""
+    def stable(e: ast.AST) -> bool:
+        if isinstance(e, ast.Name):
+            return True
+        if isinstance(e, ast.Attribute):
+            return stable(e.value)
+        return isinstance(e, ast.Call) and isinstance(e.func, ast.Name) and e.func.id == "super" and not e.args and not e.keywords
+
+    stores: Dict[str, int] = {}
+    for n in ast.walk(fn):
+        if isinstance(n, ast.Name) and isinstance(n.ctx, (ast.Store, ast.Del)):
+            stores[n.id] = stores.get(n.id, 0) + 1
+    params = {a.arg for a in ast.walk(fn.args) if isinstance(a, ast.arg)}
+    aliases: Dict[str, Tuple[ast.AST, int]] = {}
+    for n in ast.walk(fn):
+        if isinstance(n, ast.Assign) and len(n.targets) == 1 and isinstance(n.targets[0], ast.Name) and isinstance(n.value, ast.Attribute) and stable(n.value):
+            x = n.targets[0].id
+            used = {y.id for y in ast.walk(n.value) if isinstance(y, ast.Name)}
+            if stores.get(x) == 1 and x not in params and not any(stores.get(u) for u in used if u not in ("self", "cls")):
+                aliases[x] = (n.value, n.lineno)
+    if not aliases:
+        return fn
+    root = copy.deepcopy(fn)
+
+    class R(ast.NodeTransformer):
+        def visit_Name(self, n: ast.Name):
+            if isinstance(n.ctx, ast.Load) and n.id in aliases and n.lineno > aliases[n.id][1]:
+                return ast.copy_location(copy.deepcopy(aliases[n.id][0]), n)
+            return n
+
+    out = R().visit(root)
+    ast.fix_missing_locations(out)
+    for attr in ("_vt_qual", "_vt_origin"):
+        if hasattr(fn, attr):
+            setattr(out, attr, getattr(fn, attr))
+    return out
